@@ -131,7 +131,8 @@ def run(pid, tier, seed, replay=None):
     # proofs
     res.obligations, build_log = core.prove(mod.LEAN_MODULE, mod.THEOREMS, res.log)
     proved = [t for t, v in res.obligations.items() if v[0]]
-    res.audit_problems, res.axioms = core.audit(mod.LEAN_MODULE, proved, res.log)
+    if all(v[0] for v in res.obligations.values()):
+        res.audit_problems, res.axioms = core.audit(mod.LEAN_MODULE, proved, res.log)
     for t, v in res.obligations.items():
         res.samples.append(dict(kind='theorem', name=t, checked=v[0]))
     if tier == 'thorough' and all(v[0] for v in res.obligations.values()):
